@@ -8,14 +8,64 @@ def _c(z):
     return [z.real, z.imag]
 
 
+def build(text, route):
+    """the same string through different public construction routes"""
+    from paulie import PauliString, get_single, get_pauli_string
+    n = len(text)
+    if route == "parse" or n == 0:
+        return PauliString(pauli_str=text)
+    if route == "assign":            # identity, then letters assigned in place
+        P = PauliString(n=n)
+        for i, ch in enumerate(text):
+            if ch != "I":
+                P[i] = ch
+        return P
+    if route == "overwrite":         # a different string, overwritten letter by letter
+        P = PauliString(pauli_str="Y" * n)
+        for i, ch in enumerate(text):
+            P[i] = ch
+        return P
+    if route == "substring":         # one set_substring call
+        P = PauliString(pauli_str="Z" * n)
+        P.set_substring(0, text)
+        return P
+    if route == "single" and sum(ch != "I" for ch in text) == 1:
+        i = next(i for i, ch in enumerate(text) if ch != "I")
+        return get_single(n, i, text[i])
+    if route == "inc":               # predecessor in index order, incremented in place
+        idx = int("".join({"I": "00", "Z": "01", "X": "10", "Y": "11"}[ch] for ch in text), 2)
+        if idx > 0:
+            b = format(idx - 1, "0%db" % (2 * n))
+            pred = "".join({"00": "I", "01": "Z", "10": "X", "11": "Y"}[b[2 * i:2 * i + 2]] for i in range(n))
+            return PauliString(pauli_str=pred).inc()
+    if route == "product":           # product of two other strings
+        a = PauliString(pauli_str="XYZ" * n)[0:0] if False else None
+        mask = "".join("XZY"[(i * 7 + n) % 3] for i in range(n))
+        other = str(PauliString(pauli_str=mask) @ PauliString(pauli_str=text))
+        return PauliString(pauli_str=mask) @ PauliString(pauli_str=other)
+    if route == "tensor" and n >= 2:
+        return PauliString(pauli_str=text[:n // 2]) + PauliString(pauli_str=text[n // 2:])
+    if route == "copy":
+        return build(text, "assign").copy()
+    if route == "factory":
+        return get_pauli_string(text)
+    return PauliString(pauli_str=text)
+
+
+ROUTES = ["parse", "assign", "overwrite", "substring", "single", "inc", "product", "tensor", "copy", "factory"]
+
+
 def impl(case):
     import numpy as np
     from paulie import PauliString
     out = []
     dense = case.get("dense", False)
-    for p, q, as_str in case["pairs"]:
-        P = PauliString(pauli_str=p)
-        Q = q if as_str else PauliString(pauli_str=q)
+    routes = case.get("routes")
+    for k, (p, q, as_str) in enumerate(case["pairs"]):
+        P = build(p, routes[k][0]) if routes else PauliString(pauli_str=p)
+        Q = q if as_str else (build(q, routes[k][1]) if routes else PauliString(pauli_str=q))
+        if routes and str(P) != p:
+            out.append({"route_text": [routes[k][0], p, str(P)]}); continue
         r = {}
         for name, f in (("mul", lambda: str(P @ Q)), ("sign", lambda: _c(P.sign(Q))),
                         ("com", lambda: bool(P | Q)),
@@ -89,9 +139,12 @@ def nontrivial(p, q):
     return len(p) == len(q) and any(a != b and a != "I" and b != "I" for a, b in zip(p, q))
 
 
-def run_pairs(ck, pairs, dense, label):
+def run_pairs(ck, pairs, dense, label, routed=False):
     B = 400
     cases = [{"pairs": pairs[i:i + B], "dense": dense} for i in range(0, len(pairs), B)]
+    if routed:
+        for c in cases:
+            c["routes"] = [[ck.rng.choice(ROUTES), ck.rng.choice(ROUTES)] for _ in c["pairs"]]
     res = ck.impl("c04", cases, per_case_s=120)
     model = model_answers(ck, pairs)
     k = 0
@@ -100,8 +153,13 @@ def run_pairs(ck, pairs, dense, label):
         if "res" not in rr:
             ck.fail(None, "%s: implementation raised %s on a batch" % (label, rr), {"pairs": case["pairs"][:5], "result": rr})
             k += len(case["pairs"]); continue
-        for (p, q, s), r in zip(case["pairs"], rr["res"]):
+        for j, ((p, q, s), r) in enumerate(zip(case["pairs"], rr["res"])):
+            if "route_text" in r:
+                ck.fail(None, "%s: constructing %s through route %s gives %s" % (label, r["route_text"][1], r["route_text"][0], r["route_text"][2]), {"P": p, "Q": q, "routes": case["routes"][j]})
+                k += 1; continue
             bad = compare(r, model[k]); k += 1
+            if bad and case.get("routes"):
+                bad.append("operands built through routes %s" % (case["routes"][j],))
             if bad:
                 nfail += 1
                 ck.fail(None, "%s: P=%s Q=%s (%s): %s" % (label, p, q, "str operand" if s else "PauliString operand", "; ".join(bad)),
@@ -153,6 +211,14 @@ def main():
         rnd.append([uniform_pstr(ck.rng, n), uniform_pstr(ck.rng, n), ck.rng.random() < 0.2])
     dist["random_pairs"] = len(rnd)
     run_pairs(ck, rnd, False, "random")
+    # (ii') the same strings reached through other public construction routes (in-place assignment, set_substring,
+    #       get_single, inc, products, tensor, copy): P and Q are objects, however they were built
+    routed = [[p, q, False] for p, q, _ in small if len(p) <= 2]
+    for _ in range(2000 if ck.quick else 20000):
+        n = ck.rng.choice([2, 3, 3, 4, 5, 8])
+        routed.append([uniform_pstr(ck.rng, n), uniform_pstr(ck.rng, n), False])
+    dist["routed_pairs"] = len(routed)
+    run_pairs(ck, routed, False, "constructed operands", routed=True)
     # (iii) unequal lengths, all (m,n) <= (5,5), PauliString and str operands
     mis = []
     for m, n in itertools.product(range(1, 6), repeat=2):
@@ -161,7 +227,7 @@ def main():
                 mis.append([uniform_pstr(ck.rng, m), uniform_pstr(ck.rng, n), ck.rng.random() < 0.5])
     dist["length_mismatch_pairs"] = len(mis)
     run_pairs(ck, mis, False, "unequal lengths")
-    allp = pairs + rnd + mis
+    allp = pairs + rnd + mis + routed
     ck.cov["evaluations"] = len(allp) + len(S)
     ck.cov["distinct_nontrivial"] = len({(p, q) for p, q, _ in allp if nontrivial(p, q)})
     ck.cov["rule"] = ("pairs (P,Q): all 16^n pairs for n<=%d, uniform random pairs n in 4..64, all length mismatches <=5; "
